@@ -88,16 +88,20 @@ func c11Escrow(scenario int) {
 			if kept.IsPositive() {
 				sk.dels = append(sk.dels, stakingtypes.Delegation{DelegatorAddress: dels[i].String(), ValidatorAddress: vaddrs[0].String(), Shares: math.LegacyNewDecFromInt(kept)})
 			}
+			// the (first) entry may have been slashed for a validator infraction: balance below its initial balance
+			slack := ndBigInt("slashedFromEntry")
+			ndAssume(!slack.IsNegative())
+			ndAssume(slack.LT(math.NewInt(1000000000)))
 			ne := 1 + ndLen("nentries", 1)
 			rest := a.Sub(kept)
 			var entries []stakingtypes.UnbondingDelegationEntry
 			if ne == 1 {
-				entries = []stakingtypes.UnbondingDelegationEntry{{Balance: rest.Add(extra), InitialBalance: rest.Add(extra)}}
+				entries = []stakingtypes.UnbondingDelegationEntry{{Balance: rest.Add(extra), InitialBalance: rest.Add(extra).Add(slack)}}
 			} else {
 				first := ndBigInt("entry0")
 				ndAssume(first.IsPositive())
 				ndAssume(first.LT(rest))
-				entries = []stakingtypes.UnbondingDelegationEntry{{Balance: first, InitialBalance: first}, {Balance: rest.Sub(first).Add(extra), InitialBalance: rest.Sub(first).Add(extra)}}
+				entries = []stakingtypes.UnbondingDelegationEntry{{Balance: first, InitialBalance: first.Add(slack)}, {Balance: rest.Sub(first).Add(extra), InitialBalance: rest.Sub(first).Add(extra)}}
 			}
 			sk.ubds = append(sk.ubds, stakingtypes.UnbondingDelegation{DelegatorAddress: dels[i].String(), ValidatorAddress: vaddrs[0].String(), Entries: entries})
 			sk.ledgerNotBonded = sk.ledgerNotBonded.Add(rest.Add(extra))
